@@ -208,8 +208,8 @@ func (r *vfRun) Violation(sig, summary string, detail interface{}) {
 	}
 	r.violations++
 	r.violSigs[sig]++
-	if r.violSigs[sig] > 3 || r.violations > r.maxViolFiles {
-		return // enough witnesses of that class on disk
+	if r.violSigs[sig] > 3 || len(r.violSigs) > r.maxViolFiles {
+		return // enough witnesses of that class on disk (budget is per signature, so a frequent class cannot hide others)
 	}
 	p := r.writeWitness(sig, summary, detail, "")
 	fmt.Printf("VIOLATION property=%s replay=%s\n", r.ID, p)
